@@ -379,6 +379,25 @@ fn round_trip<V: VT>(a: &TA<V>, variant: Variant, kind: Kind, pats: &[Vec<u8>], 
             out = Some(r);
         }
     }
+    // unaligned start of the image inside a larger buffer
+    for lead in 1..=3usize {
+        let mut buf = vec![0xa5u8; lead];
+        buf.extend_from_slice(&bytes);
+        let rt = std::panic::catch_unwind(std::panic::AssertUnwindSafe(|| TA::<V>::deserialize(variant, &buf[lead..])));
+        let okk = match rt {
+            Ok((r, off, rest)) => off == bytes.len() && rest == 0 && r.serialize() == bytes,
+            Err(_) => {
+                let _ = util::take_last_panic();
+                false
+            }
+        };
+        if !okk {
+            let mut c = case_json::<V>(variant, kind, pats, assign);
+            c.as_object_mut().unwrap().insert("check".into(), json!("roundtrip"));
+            acc.violate("C09", "types", format!("[{} {} {}] patterns {}: an image that starts {lead} byte(s) into a buffer is not restored", V::NAME, variant.name(), kind.name(), e2::show_pats(pats)), c);
+            return None;
+        }
+    }
     out
 }
 
@@ -590,7 +609,7 @@ fn replay_typed<V: VT>(case: &Value) -> bool {
 
 fn main() {
     let args: Vec<String> = std::env::args().collect();
-    util::install_guards(60);
+    util::install_guards(30);
     if args.get(1).map(String::as_str) == Some("replay") {
         let failed = replay(&args[2]);
         println!("replay: {}", if failed { "STILL FAILS" } else { "passes" });
